@@ -143,6 +143,13 @@ class CoopLock:
         self.owner = None
         self.depth = 0
         self.reentrant = reentrant
+        # creating a lock at run time (lazily, per object, through a defaultdict factory ...) is a
+        # synchronisation-related step: other threads may run between "decide a lock is needed"
+        # and "publish it", so it is a scheduling point inside an exploration
+        s = _CURRENT[0]
+        tid = getattr(_TLS, "tid", None)
+        if s is not None and tid is not None and not s.aborting:
+            s.point(tid)
 
     def acquire(self, blocking=True, timeout=-1):
         s = _CURRENT[0]
@@ -256,6 +263,10 @@ def run_once(bodies, prefix, shared, watched, opcodes=False, timeout=20.0, expec
     ex.deadlock, ex.hang, ex.npoints_all, ex.error = s.deadlock, hang, s.npoints_all, s.error
     if s.error is not None:
         raise s.error
+    if len(ex.choices) < len(prefix) and not (ex.deadlock or ex.hang):
+        raise Divergence("execution ended after %d choice points, the replayed prefix has %d: "
+                         "state leaks between executions or the run is not deterministic"
+                         % (len(ex.choices), len(prefix)))
     return ex
 
 
@@ -352,6 +363,61 @@ def cooperative_locks(module):
                     setattr(v, ck, CoopLock(isinstance(cv, (ms.RLock, _thread.RLock))))
                     n += 1
     return n
+
+
+def _containers(module):
+    import collections
+    for owner in [module] + [v for v in vars(module).values()
+                             if isinstance(v, type) and getattr(v, "__module__", None) == module.__name__]:
+        for k, v in list(vars(owner).items()):
+            if k.startswith("__"):
+                continue
+            if isinstance(v, (dict, list, set, collections.deque)):
+                yield owner, k, v
+
+
+def snapshot_state(module):
+    """Shallow copies of every mutable container bound at module or class level (taken right after
+    import): the per-execution reset puts them back, so that nothing an execution leaves behind
+    (lazily created locks, registries, memo tables) leaks into the next one."""
+    return [(owner, k, type(v), list(v.items()) if isinstance(v, dict) else list(v))
+            for owner, k, v in _containers(module)]
+
+
+def restore_state(module, snap):
+    for owner, k, typ, content in snap:
+        cur = vars(owner).get(k)
+        if not isinstance(cur, typ):
+            continue          # rebound to something else by the library itself (e.g. clear_cache)
+        cur.clear()
+        if isinstance(cur, dict):
+            cur.update(content)
+        elif isinstance(cur, set):
+            cur.update(content)
+        else:
+            cur.extend(content)
+
+
+def import_with_cooperative_locks(package):
+    """(Re-)import `package` while multiprocessing.Lock/RLock and threading.Lock/RLock create
+    cooperative locks, so that also factories captured at import time (e.g.
+    defaultdict(multiprocessing.Lock)) are cooperative.  Third-party modules are loaded first by
+    a plain import, then only the package's own modules are re-imported under the patch."""
+    import importlib
+    import multiprocessing
+    import threading as th
+    importlib.import_module(package)
+    for name in [m for m in sys.modules if m == package or m.startswith(package + ".")]:
+        del sys.modules[name]
+    saved = (multiprocessing.Lock, multiprocessing.RLock, th.Lock, th.RLock)
+    multiprocessing.Lock = lambda *a, **k: CoopLock(False)
+    multiprocessing.RLock = lambda *a, **k: CoopLock(True)
+    th.Lock = lambda *a, **k: CoopLock(False)
+    th.RLock = lambda *a, **k: CoopLock(True)
+    try:
+        return importlib.import_module(package)
+    finally:
+        multiprocessing.Lock, multiprocessing.RLock, th.Lock, th.RLock = saved
 
 
 def reset_locks(module):
